@@ -39,6 +39,8 @@ def workload(tier, rng, acc):
         prnd = P(5, k, r, length=rng.choice([1, 3, 8, 17]), payload="rnd", align=rng.choice([0, 3]))
         execs.append(gen.encode_exec(p, slots=["buf", "null"]))
         execs.append(gen.encode_exec(prnd))
+        # the same repair symbols asked for again after a source symbol changed (same session, same buffers)
+        execs.append(gen.encode_exec(p, slots="buf", rebuild=(rng.randrange(p.k), list(range(p.k, p.n)))))
         # every single loss, both APIs
         for lost in range(n):
             sub = [e for e in range(n) if e != lost]
